@@ -11,21 +11,25 @@ VARIABLES prog, fin
 
 TV(ty, a, b) == <<ty, a, b>>
 ArithVals ==                                   \* values that may take part in additions
-  {TV("f64", a, 0) : a \in {0, 1, 2, 0 - 6, 10, NaN, PInf, NInf, 67108868}}
-    \cup {TV("f32", a, 0) : a \in {1, 0 - 6, NaN, PInf, NInf, 67108864}}
+  {TV("f64", a, 0) : a \in {0, NZero, 1, 2, 0 - 6, 10, NaN, PInf, NInf, 67108868}}
+    \cup {TV("f32", a, 0) : a \in {0, NZero, 1, 0 - 6, NaN, PInf, NInf, 67108864}}
     \cup {TV("i8", 0 - 128, 0), TV("i8", 127, 0), TV("u8", 255, 0), TV("u8", 0, 0), TV("i16", 0 - 32768, 0), TV("i16", 32767, 0),
           TV("u16", 65535, 0), TV("i32", 0 - 16777217, 0), TV("i32", 16777217, 0), TV("u32", 16777217, 0),
           TV("dur", 0, 0), TV("dur", 1, 1), TV("dur", 2, 3), TV("dur", 0, 2)}
 AllVals == ArithVals \cup {TV("i32", 0 - 100000001, 0), TV("i32", 100000001, 0), TV("u32", 100000001, 0)}
+\* every way to pass a zero: +0.0 / -0.0 as f64 and f32, integer zeros, the zero Duration
+ZeroVals == {TV("f64", 0, 0), TV("f64", NZero, 0), TV("f32", 0, 0), TV("f32", NZero, 0), TV("u32", 0, 0), TV("i8", 0, 0),
+             TV("u8", 0, 0), TV("dur", 0, 0)}
 CRing == {0, 1, 2, 1000, 3001, 7999, 8000, 15000, 15998, 15999}
 
 \* One random operation per step (a single successor: generating all ~1100 successors of every state and
 \* checking the invariants on each made -simulate crawl at 2 behaviours/s).  Every RandomElement is bound
 \* through a singleton set so that it is evaluated exactly once.
 RandStep(A(_)) ==
-  \E c \in {RandomElement(1..7)} :
+  \E c \in {RandomElement(1..10)} :
   \E h1 \in {RandomElement({1, 2, 3, 4})}, h2 \in {RandomElement({5, 6, 7, 8})}, h3 \in {RandomElement({9, 10, 11, 12, 13})},
      h4 \in {RandomElement({11, 12})}, a \in {RandomElement(CRing)}, va \in {RandomElement(ArithVals)}, v \in {RandomElement(AllVals)},
+     vz \in {RandomElement(ZeroVals)}, gz \in {RandomElement({"inc", "dec", "set", "set"})}, hz \in {RandomElement({5, 6})},
      co \in {RandomElement({"inc", "abs"})}, go \in {RandomElement({"inc", "dec"})}, n \in {RandomElement({0, 1, 2, 3})} :
     A(CASE c = 1 -> Op(h1, co, "u64", a, 0, 0)
         [] c = 2 -> Op(h2, go, va[1], va[2], va[3], 0)
@@ -33,12 +37,15 @@ RandStep(A(_)) ==
         [] c = 4 -> Op(h3, "rec", v[1], v[2], v[3], 1)
         [] c \in {5, 6} -> Op(h3, "many", v[1], v[2], v[3], n)
         \* usize::MAX only where record_many is overridden (or the handle is a no-op): the default impl would loop for ever
+        \* signed zeros on one gauge cell through the handle and its clone (c = 8..10)
+        [] c \in {8, 9, 10} -> Op(hz, gz, vz[1], vz[2], vz[3], 0)
         [] c = 7 -> IF n = 0 THEN Op(h4, "many", v[1], v[2], v[3], BigN) ELSE Op(h2, go, va[1], va[2], va[3], 0))
 
 SimSmall ==
   {Op(h, op, "u64", a, 0, 0) : h \in {1, 2, 3}, op \in {"inc", "abs"}, a \in {1, 8000, 15999}}
-    \cup {Op(h, op, "f64", a, 0, 0) : h \in {5, 6, 7}, op \in {"inc", "dec", "set"}, a \in {1, 0 - 6, NaN, PInf, NInf}}
-    \cup {Op(h, "rec", "f64", a, 0, 1) : h \in {9, 11, 12, 13}, a \in {1, NaN}}
+    \cup {Op(h, op, "f64", a, 0, 0) : h \in {5, 6, 7}, op \in {"inc", "dec", "set"}, a \in {0, NZero, 1, 0 - 6, NaN, PInf, NInf}}
+    \cup {Op(5, "inc", "u32", 0, 0, 0), Op(6, "dec", "f32", NZero, 0, 0), Op(5, "inc", "dur", 0, 0, 0)}
+    \cup {Op(h, "rec", "f64", a, 0, 1) : h \in {9, 11, 12, 13}, a \in {1, NaN, NZero}}
     \cup {Op(h, "many", "f64", 1, 0, n) : h \in {9, 11, 12, 13}, n \in {0, 2}}
 
 Take(o) == Do(1, o) /\ prog' = Append(prog, o)
